@@ -67,6 +67,11 @@ type Client struct {
 
 	activeInvHandlers sync.WaitGroup
 
+	// sendMu is held shared while sending to the transport, and exclusively
+	// to close it, so that nothing is sent on a transport that was closed.
+	sendMu     sync.RWMutex
+	peerClosed bool
+
 	log   stdlog.StdLog
 	debug bool
 
@@ -302,6 +307,52 @@ func (c *Client) Done() <-chan struct{} { return c.ctx.Done() }
 // the router.
 func (c *Client) Connected() bool { return c.ctx.Err() == nil }
 
+// send sends a message to the router. It returns ErrNotConn, without sending,
+// if the session has ended or the transport was closed.
+func (c *Client) send(msg wamp.Message) error {
+	return c.sendContext(context.Background(), msg)
+}
+
+// sendContext is like send, and also gives up when ctx is done, in which case
+// it returns the context's error.
+func (c *Client) sendContext(ctx context.Context, msg wamp.Message) error {
+	c.sendMu.RLock()
+	defer c.sendMu.RUnlock()
+	if c.peerClosed {
+		return ErrNotConn
+	}
+	select {
+	case c.sess.Send() <- msg:
+		return nil
+	case <-c.Done():
+		return ErrNotConn
+	case <-ctx.Done():
+		return ctx.Err()
+	}
+}
+
+// sendRequest sends a request that expectReply was called for. If it cannot
+// be sent, no reply is expected any more.
+func (c *Client) sendRequest(id wamp.ID, msg wamp.Message) error {
+	err := c.send(msg)
+	if err != nil {
+		c.sess.Lock()
+		delete(c.awaitingReply, id)
+		c.sess.Unlock()
+	}
+	return err
+}
+
+// closePeer closes the transport, once, when no send is in progress.
+func (c *Client) closePeer() {
+	c.sendMu.Lock()
+	defer c.sendMu.Unlock()
+	if !c.peerClosed {
+		c.peerClosed = true
+		c.sess.Close()
+	}
+}
+
 // ID returns the client's session ID which is assigned after attaching to a
 // router and joining a realm.
 func (c *Client) ID() wamp.ID { return c.sess.ID }
@@ -346,10 +397,12 @@ func (c *Client) Subscribe(topic string, fn EventHandler, options wamp.Dict) err
 	}
 	id := c.sess.IDGen.Next()
 	c.expectReply(id)
-	c.sess.Send() <- &wamp.Subscribe{
+	if err := c.sendRequest(id, &wamp.Subscribe{
 		Request: id,
 		Options: options,
 		Topic:   wamp.URI(topic),
+	}); err != nil {
+		return err
 	}
 
 	// Wait to receive SUBSCRIBED message.
@@ -417,9 +470,11 @@ func (c *Client) Unsubscribe(topic string) error {
 
 	id := c.sess.IDGen.Next()
 	c.expectReply(id)
-	c.sess.Send() <- &wamp.Unsubscribe{
+	if err := c.sendRequest(id, &wamp.Unsubscribe{
 		Request:      id,
 		Subscription: subID,
+	}); err != nil {
+		return err
 	}
 
 	// Wait to receive UNSUBSCRIBED message.
@@ -541,7 +596,9 @@ func (c *Client) Publish(topic string, options wamp.Dict, args wamp.List, kwargs
 		message.ArgumentsKw = kwargs
 	}
 
-	c.sess.Send() <- message
+	if err := c.sendRequest(id, message); err != nil {
+		return err
+	}
 
 	if !pubAck {
 		return nil
@@ -605,10 +662,12 @@ func (c *Client) Register(procedure string, fn InvocationHandler, options wamp.D
 	if options == nil {
 		options = wamp.Dict{}
 	}
-	c.sess.Send() <- &wamp.Register{
+	if err := c.sendRequest(id, &wamp.Register{
 		Request:   id,
 		Options:   options,
 		Procedure: wamp.URI(procedure),
+	}); err != nil {
+		return err
 	}
 
 	// Wait to receive REGISTERED message.
@@ -668,9 +727,11 @@ func (c *Client) Unregister(procedure string) error {
 
 	id := c.sess.IDGen.Next()
 	c.expectReply(id)
-	c.sess.Send() <- &wamp.Unregister{
+	if err := c.sendRequest(id, &wamp.Unregister{
 		Request:      id,
 		Registration: procID,
+	}); err != nil {
+		return err
 	}
 
 	// Wait to receive UNREGISTERED message.
@@ -802,10 +863,11 @@ func (c *Client) Call(ctx context.Context, procedure string, options wamp.Dict, 
 		return nil, err
 	}
 
-	c.sess.Send() <- message
-
-	// Wait to receive RESULT message.
-	msg, err := c.waitForReplyWithCancel(ctx, id, procedure, progChan)
+	var msg wamp.Message
+	if err = c.sendRequest(id, message); err == nil {
+		// Wait to receive RESULT message.
+		msg, err = c.waitForReplyWithCancel(ctx, id, procedure, progChan)
+	}
 
 	// Finish handling any remaining progressive results before returning the
 	// final result.
@@ -823,8 +885,8 @@ func (c *Client) Call(ctx context.Context, procedure string, options wamp.Dict, 
 		abortMsg, err := c.prepareCallResultMessage(msg)
 		if err != nil {
 			if abortMsg != nil {
-				c.sess.Send() <- abortMsg
-				c.sess.Close()
+				_ = c.send(abortMsg)
+				c.closePeer()
 			}
 
 			return nil, err
@@ -900,11 +962,11 @@ func (c *Client) CallProgressive(ctx context.Context, procedure string, sendProg
 		return nil, err
 	}
 
-	c.sess.Send() <- message
+	sendErr := c.sendRequest(id, message)
 
 	callInProgress, _ := options[wamp.OptProgress].(bool)
 
-	if callInProgress {
+	if callInProgress && sendErr == nil {
 		// So client marked first payload as progressive, so we start pulling
 		// next chunks of input data from the client
 		go func() {
@@ -912,10 +974,10 @@ func (c *Client) CallProgressive(ctx context.Context, procedure string, sendProg
 				cliOptions, args, kwargs, err := sendProg(ctx)
 
 				if err != nil {
-					c.sess.Send() <- &wamp.Cancel{
+					_ = c.send(&wamp.Cancel{
 						Request: id,
 						Options: wamp.SetOption(nil, wamp.OptMode, wamp.CancelModeKillNoWait),
-					}
+					})
 					return
 				}
 
@@ -939,20 +1001,25 @@ func (c *Client) CallProgressive(ctx context.Context, procedure string, sendProg
 				}
 
 				if err := c.prepareCallPayloadMessage(message, options, args, kwargs); err != nil {
-					c.sess.Send() <- &wamp.Cancel{
+					_ = c.send(&wamp.Cancel{
 						Request: id,
 						Options: wamp.SetOption(nil, wamp.OptMode, wamp.CancelModeKillNoWait),
-					}
+					})
 					return
 				}
 
-				c.sess.Send() <- message
+				if c.send(message) != nil {
+					return
+				}
 			}
 		}()
 	}
 
-	// Wait to receive RESULT message.
-	msg, err := c.waitForReplyWithCancel(ctx, id, procedure, progChan)
+	var msg wamp.Message
+	if err = sendErr; err == nil {
+		// Wait to receive RESULT message.
+		msg, err = c.waitForReplyWithCancel(ctx, id, procedure, progChan)
+	}
 
 	// Finish handling any remaining progressive results before returning the
 	// final result.
@@ -970,8 +1037,8 @@ func (c *Client) CallProgressive(ctx context.Context, procedure string, sendProg
 		abortMsg, err := c.prepareCallResultMessage(msg)
 		if err != nil {
 			if abortMsg != nil {
-				c.sess.Send() <- abortMsg
-				c.sess.Close()
+				_ = c.send(abortMsg)
+				c.closePeer()
 			}
 
 			return nil, err
@@ -1062,8 +1129,7 @@ func (c *Client) Close() error {
 		}
 
 		var stopped bool
-		select {
-		case c.sess.Send() <- gmMsg:
+		if c.sendContext(sendCtx, gmMsg) == nil {
 			// The router should respond with a GOODBYE message, which causes
 			// run() to exit. Wait for run() to exit, but only wait for
 			// whatever time remains on the context.
@@ -1072,7 +1138,6 @@ func (c *Client) Close() error {
 				stopped = true
 			case <-sendCtx.Done():
 			}
-		case <-sendCtx.Done():
 		}
 
 		if !stopped {
@@ -1083,7 +1148,7 @@ func (c *Client) Close() error {
 
 	// When for any running invocation handlers to finish.
 	c.activeInvHandlers.Wait()
-	c.sess.Close()
+	c.closePeer()
 
 	return nil
 }
@@ -1143,13 +1208,9 @@ func (c *Client) SendProgress(ctx context.Context, args wamp.List, kwArgs wamp.D
 		Arguments:   args,
 		ArgumentsKw: kwArgs,
 	}
-	select {
-	case c.sess.Send() <- yieldMsg:
-	case <-ctx.Done():
-		select {
-		case <-c.Done():
+	if err := c.sendContext(ctx, yieldMsg); err != nil {
+		if !c.Connected() || errors.Is(err, ErrNotConn) {
 			return ErrNotConn
-		default:
 		}
 		// Caller is not accepting progressive results or call canceled.
 		return ErrCallerNoProg
@@ -1419,10 +1480,10 @@ CollectResults:
 			c.log.Printf("Call to %q canceled by caller (mode=%s): %s",
 				procedure, c.cancelMode, err)
 		}
-		c.sess.Send() <- &wamp.Cancel{
+		_ = c.send(&wamp.Cancel{
 			Request: id,
 			Options: wamp.SetOption(nil, wamp.OptMode, c.cancelMode),
-		}
+		})
 		// Wait for the ERROR from the dealer.
 		timer := time.NewTimer(c.responseTimeout)
 	waitCancel:
@@ -1626,13 +1687,13 @@ func (c *Client) runHandleInvocation(msg *wamp.Invocation) {
 		// as ErrNoSuchProcedure, since the dealer has a procedure registered.
 		// It is reported as ErrInvalidArgument to denote that the client has a
 		// problem with the registration ID argument.
-		c.sess.Send() <- &wamp.Error{
+		_ = c.send(&wamp.Error{
 			Type:      wamp.INVOCATION,
 			Request:   reqID,
 			Details:   wamp.Dict{},
 			Error:     wamp.ErrInvalidArgument,
 			Arguments: wamp.List{errMsg},
-		}
+		})
 		c.log.Print(errMsg)
 		return
 	}
@@ -1642,13 +1703,13 @@ func (c *Client) runHandleInvocation(msg *wamp.Invocation) {
 	if pptScheme, _ := msg.Details[wamp.OptPPTScheme].(string); pptScheme != "" {
 		if !isPPTSchemeValid(pptScheme) {
 			c.sess.Unlock()
-			c.sess.Send() <- &wamp.Error{
+			_ = c.send(&wamp.Error{
 				Type:      wamp.INVOCATION,
 				Request:   reqID,
 				Details:   wamp.Dict{},
 				Error:     wamp.ErrInvalidArgument,
 				Arguments: wamp.List{ErrPPTSchemeInvalid.Error()},
-			}
+			})
 			c.log.Printf("cannot process invocation with invalid ppt schema %q: %v", pptScheme, ErrPPTSchemeInvalid)
 			return
 		}
@@ -1667,13 +1728,13 @@ func (c *Client) runHandleInvocation(msg *wamp.Invocation) {
 
 		if err != nil {
 			c.sess.Unlock()
-			c.sess.Send() <- &wamp.Error{
+			_ = c.send(&wamp.Error{
 				Type:      wamp.INVOCATION,
 				Request:   reqID,
 				Details:   wamp.Dict{},
 				Error:     wamp.ErrInvalidArgument,
 				Arguments: wamp.List{err.Error()},
-			}
+			})
 			c.log.Printf("cannot unpack invocation message: %v", err)
 			return
 		}
@@ -1837,10 +1898,7 @@ func (c *Client) runHandleInvocation(msg *wamp.Invocation) {
 					ArgumentsKw: result.Kwargs,
 					Error:       result.Err,
 				}
-				select {
-				case c.sess.Send() <- errMsg:
-				case <-c.ctx.Done():
-				}
+				_ = c.send(errMsg)
 				return
 			}
 
@@ -1868,8 +1926,8 @@ func (c *Client) runHandleInvocation(msg *wamp.Invocation) {
 							wamp.OptMessage: ErrPPTNotSupportedByPeer.Error(),
 						},
 					}
-					c.sess.Send() <- &abortMsg
-					c.sess.Close()
+					_ = c.send(&abortMsg)
+					c.closePeer()
 					return
 				}
 
@@ -1884,10 +1942,7 @@ func (c *Client) runHandleInvocation(msg *wamp.Invocation) {
 						ArgumentsKw: result.Kwargs,
 						Error:       wamp.ErrInvalidArgument,
 					}
-					select {
-					case c.sess.Send() <- errMsg:
-					case <-c.ctx.Done():
-					}
+					_ = c.send(errMsg)
 					return
 				}
 
@@ -1913,10 +1968,7 @@ func (c *Client) runHandleInvocation(msg *wamp.Invocation) {
 						ArgumentsKw: result.Kwargs,
 						Error:       wamp.ErrInvalidArgument,
 					}
-					select {
-					case c.sess.Send() <- errMsg:
-					case <-c.ctx.Done():
-					}
+					_ = c.send(errMsg)
 					return
 				}
 
@@ -1927,10 +1979,7 @@ func (c *Client) runHandleInvocation(msg *wamp.Invocation) {
 				message.ArgumentsKw = result.Kwargs
 			}
 
-			select {
-			case c.sess.Send() <- message:
-			case <-c.ctx.Done():
-			}
+			_ = c.send(message)
 		}()
 	}
 }
